@@ -135,7 +135,18 @@ def deep_tower(d, centre="[C]"):
 
 
 def gen_smiles_text(ch):
-    w = ch.weighted([(8, "dict"), (3, "mutated"), (2, "unicode"), (1, "template")])
+    w = ch.weighted([(6, "dict"), (3, "mutated"), (2, "unicode"), (1, "template"), (4, "spelled"), (3, "spelled_mutated"), (1, "aromatic")])
+    if w in ("spelled", "spelled_mutated"):
+        from vf import gen_mol as GM
+        m = GM.gen_molecule(ch, max_atoms=ch.pick([6, 14, 30]))
+        wr = GM.write(m, ch)
+        s = wr["smiles"] if wr else "C"
+        return s if w == "spelled" else mutate_text(ch, s)
+    if w == "aromatic":
+        from vf import gen_arom as GA, gen_mol as GM
+        name, adj, kinds = GA.gen_system(ch, extended=ch.bool(50), allow_cage=ch.bool(20))
+        wr = GM.write(GA.build(adj, kinds), ch, variants=False)
+        return wr["smiles"] if wr else "c1ccccc1"
     if w == "dict":
         n = ch.int(0, 30)
         out = []
